@@ -240,7 +240,12 @@ theorem evalM_off_ok (AV : List VarId) (hinj : Function.Injective P.rank) (hD : 
     have hvl : ∀ v ∈ l.vars, v ∈ AV := by intro v hvv; apply hv; simp [Cond.vars, hvv]
     have hvr : ∀ v ∈ r.vars, v ∈ AV := by intro v hvv; apply hv; simp [Cond.vars, hvv]
     have hreql : ReqSup AV (reqLeftOfAnd r.vars req) := by
-      intro wt v hvv; exact List.mem_append.2 (Or.inr (hreq wt v hvv))
+      intro wt v hvv
+      have := hreq wt v hvv
+      unfold reqLeftOfAnd
+      split
+      · simp only [List.mem_append]; exact Or.inl (Or.inr this)
+      · exact List.mem_append.2 (Or.inr this)
     obtain ⟨l1, l2, l3⟩ := ihl hf.1 hvl (0 :: π) _ β ywf hreql hb st (invOn_sub P hst (fun π' h => inSub_child h))
     simp only at l1 l2 l3
     have hreqR : ReqSup AV (reqRightOfAnd req) := hreq
